@@ -112,6 +112,15 @@ class ResponseHandler(BaseProtocol, DataQueue[tuple[RawResponseMessage, StreamRe
     def is_connected(self) -> bool:
         return self.transport is not None and not self.transport.is_closing()
 
+    def is_reusable(self) -> bool:
+        """Can a pooled connection be handed to another request.
+
+        Anything received while the connection was idle (or after the end
+        of the previous response) is reflected in should_close: it must
+        never be taken for the answer to the next request.
+        """
+        return self.is_connected() and not self.should_close
+
     def connection_lost(self, exc: BaseException | None) -> None:
         self._connection_lost_called = True
         self._drop_timeout()
